@@ -779,7 +779,10 @@ class TaskScenario(ScenarioData):
             effort_before = self.doneEffort
             self.bookResources()
 
-            if self.doneEffort >= effort:
+            # (sums of per-slot float efforts can stay a few ulp below the requested
+            # effort; without the tolerance the task would touch one more slot for
+            # zero seconds and the next task would inherit a wrong start)
+            if self.doneEffort >= effort - 1e-9:
                 # Finished - calculate precise end time within the final slot
                 # and release unused time for other tasks
                 end_date, _seconds_used = self._calculatePreciseEndTimeAndRelease(effort, effort_before, forward)
